@@ -506,6 +506,9 @@ def plan(tier):
             t.append(tk)
     for lo in range(0, 65536, 2048):
         t.append({'kind': 'sym4', 'lo': lo, 'hi': lo + 2048})
+    for pat in ('not-and', 'cmp', 'or3'):
+        for st in ('fwd', 'rev'):
+            t.append({'kind': 'deep', 'pattern': pat, 'L': 3000, 'storage': st})
     wide = [(9, 'and2'), (9, 'xor3'), (10, 'and2'), (10, 'xor3'), (12, 'and2')]
     if tier == 'thorough':
         wide += [(11, 'and2'), (11, 'xor3'), (12, 'xor3'), (13, 'and2')]
@@ -522,7 +525,7 @@ def plan(tier):
 
 def describe(tier):
     return {
-        'rule': 'widewrappers: from_int_unary/binary_func with operand/result widths 33..130 over a stated operand alphabet, both bit orders, against Python integers; wideif: functions of 9..12 (13) inputs depending on 2-3 of them, every ordered choice of positions from {0,1,2,7,8,9,n-2,n-1} with one >= 8: dependency queries incl. the order of the answer; funcs: every function table for the listed (n,m) in 7 representations (TruthTable from bools / strings, PyFunction from a '
+        'rule': 'deep: every protocol query on chain circuits of 3000 gates (three patterns, both storage orders); widewrappers: from_int_unary/binary_func with operand/result widths 33..130 over a stated operand alphabet, both bit orders, against Python integers; wideif: functions of 9..12 (13) inputs depending on 2-3 of them, every ordered choice of positions from {0,1,2,7,8,9,n-2,n-1} with one >= 8: dependency queries incl. the order of the answer; funcs: every function table for the listed (n,m) in 7 representations (TruthTable from bools / strings, PyFunction from a '
         'list callable with and without output_size and from a 0/1-integer-valued callable, PyFunction.from_positional, Circuit as mux tree); circuits: every circuit of '
         'F(n,2,FULL) with outputs (last gate, first gate, first input) as its own function; identity: callables returning their argument list; sym4: all 65536 four-input functions for the symmetry/constancy/monotonicity queries; rebuild: table queried, last gate rebuilt under the same label with every other type, queried again; every '
         'protocol query with every index argument, both inverse values, every non-empty output subset for find_negations; answers '
@@ -667,6 +670,9 @@ def run_task(task, acc):
         return check_models(acc, task['n'], task['m'], task['lo'], task['hi'])
     if k == 'sym4':
         return check_sym4(acc, task['lo'], task['hi'])
+    if k == 'deep':
+        c, net = space.deep_chain(task['pattern'], task['L'], task['storage'])
+        return check_function(acc, net.out_tables(), len(net.inputs), {'Circuit': c}, f"deep:{task['pattern']}:{task['L']}:{task['storage']}")
     if k == 'wideif':
         return check_wide_interface(acc, task['n'], task['shape'], task.get('first'))
     if k == 'funcs':
@@ -709,6 +715,10 @@ def replay(case, acc):
         return check_models(acc, n, m, i, i + 1)
     if case.get('family') == 'identity-callable':
         return check_identity_callable(acc)
+    if str(case.get('family', '')).startswith('deep:'):
+        _, pat, L, st = case['family'].split(':')
+        c, net = space.deep_chain(pat, int(L), st)
+        return check_function(acc, net.out_tables(), len(net.inputs), {'Circuit': c}, case['family'])
     if case.get('family') == 'wide-interface':
         return check_wide_interface(acc, case['n'], 'and2' if len(case['gate'][1]) == 2 else 'xor3')
     if case.get('family') == 'sym4':
